@@ -239,7 +239,10 @@ def class_switch_cases(rng):
 
 
 def _uncps(t):
-    return "" if t == "-" else "".join(chr(int(x)) for x in t.split(","))
+    try:
+        return "" if t == "-" else "".join(chr(int(x)) for x in t.split(","))
+    except ValueError:
+        return t            # an adapter's own answer ("None": the inspector does not recognise the string)
 
 
 def lossless_on_seeds(ctx, seeds):
